@@ -82,7 +82,26 @@ def const_fold(t, memo=None):
         elif c == ir.FALSE:
             r = const_fold(t[3], memo)
         else:
-            r = (h, c, const_fold(t[2], memo), const_fold(t[3], memo))
+            a, b = const_fold(t[2], memo), const_fold(t[3], memo)
+            if a == ir.TRUE and b == ir.FALSE:
+                r = c                      # c ? true : false
+            elif a == ir.FALSE and b == ir.TRUE:
+                r = ir.mk_not(c)
+            elif a == b:
+                r = a
+            else:
+                r = (h, c, a, b)
+    elif h == 'cmp':
+        a, b = const_fold(t[2], memo), const_fold(t[3], memo)
+        r = (h, t[1], a, b)
+        if a[0] == 'ci' and b[0] == 'ci' and a[2] == b[2]:
+            w = a[2]
+            sx = lambda v: v - (1 << w) if v >= 1 << (w - 1) else v
+            x, y = a[1], b[1]
+            v = {'eq': x == y, 'ne': x != y, 'ult': x < y, 'ule': x <= y, 'ugt': x > y, 'uge': x >= y,
+                 'slt': sx(x) < sx(y), 'sle': sx(x) <= sx(y), 'sgt': sx(x) > sx(y), 'sge': sx(x) >= sx(y)}.get(t[1])
+            if v is not None:
+                r = ir.TRUE if v else ir.FALSE
     elif h in ('not', 'and', 'or'):
         xs = [const_fold(x, memo) for x in t[1:]]
         r = ir.mk_not(xs[0]) if h == 'not' else ir.mk_and(*xs) if h == 'and' else ir.mk_or(*xs)
